@@ -259,6 +259,22 @@ def read_settings():
             "tcs": bool(settings.terminate_cg_by_size.on())}
 
 
+def requested_settings(spec):
+    """the settings in force as the CALLER asked for them: the library's values outside any context (defaults), overlaid
+    with the value each context of the spec is asked to provide.  This - not the value read back from the library inside
+    the context - is what the model and the predicates are fed, so that a settings class that alters, clamps or reconciles
+    its value shows up as model != implementation and as a predicate failure."""
+    st = read_settings()
+    if spec.get("set_max_cg") is not None:
+        st["max_cg"] = int(spec["set_max_cg"])
+    if spec.get("set_max_lq") is not None:
+        st["max_lq"] = int(spec["set_max_lq"])
+    if spec.get("set_tol") is not None:
+        st["tol"] = float(spec["set_tol"])
+    st["tcs"] = bool(spec.get("tcs", False))
+    return st
+
+
 def run_impl(spec, T, max_iter="spec", rhs_scale=None):
     """one call of the real linear_cg.  Returns the observation dict."""
     from linear_operator.utils.linear_cg import linear_cg
@@ -291,10 +307,11 @@ def run_impl(spec, T, max_iter="spec", rhs_scale=None):
     if prr is not None:
         kw["preconditioner"] = prr
     obs = {"err": None, "res": None, "tmat": None, "warn": False, "wk": None, "wmean": None,
-           "mm_calls": None, "pre_calls": None, "settings": None, "other_warnings": []}
+           "mm_calls": None, "pre_calls": None, "settings": None, "settings_read": None, "other_warnings": []}
     torch.set_printoptions(precision=17)
+    obs["settings"] = requested_settings(spec)
     with settings_ctx(spec):
-        obs["settings"] = read_settings()
+        obs["settings_read"] = read_settings()
         with warnings.catch_warnings(record=True) as wl:
             warnings.simplefilter("always")
             try:
@@ -332,7 +349,7 @@ def run_impl(spec, T, max_iter="spec", rhs_scale=None):
 def run_op(spec, T, entry, debug):
     """the same solve through the operator-level entry points of the property (anchor _linear_operator.py): a dense
     LinearOperator on the CG path (max_cholesky_size(0)); every limit comes from the settings, as LinearOperator._solve
-    passes them.  entry: solve | _solve | inv_quad.  Returns {err, res, warn}."""
+    passes them.  entry: solve | _solve | inv_quad | _solve_tri | inv_quad_logdet.  Returns {err, res, warn, settings}."""
     import contextlib
     from linear_operator import settings
     from linear_operator.operators import DenseLinearOperator
@@ -344,8 +361,8 @@ def run_op(spec, T, entry, debug):
     prr = None
     if T["Minv"] is not None:
         prr = Rec(T["Minv"].to(dt), "fresh", len(spec["batch"]))
-    obs = {"err": None, "res": None, "warn": False}
-    with settings_ctx(spec), settings.max_cholesky_size(0), settings.debug(bool(debug)):
+    obs = {"err": None, "res": None, "warn": False, "settings": requested_settings(spec)}
+    with settings_ctx(spec), settings.max_cholesky_size(0), settings.debug(bool(debug)), settings.num_trace_samples(3):
         with warnings.catch_warnings(record=True) as wl:
             warnings.simplefilter("always")
             try:
@@ -355,6 +372,12 @@ def run_op(spec, T, entry, debug):
                     out = op._solve(rhs, prr)
                 elif entry == "inv_quad":
                     out = op.inv_quad(rhs)
+                elif entry == "_solve_tri":          # the route of the stochastic log-determinant: tridiagonalise 2 columns
+                    out = op._solve(rhs, prr, num_tridiag=min(2, rhs.shape[-1] if rhs.dim() > 1 else 1))
+                    out = out[0] if isinstance(out, tuple) else out
+                elif entry == "inv_quad_logdet":
+                    out = op.inv_quad_logdet(rhs, logdet=True)
+                    out = torch.stack([o.to(F64).sum() for o in out])
                 else:
                     raise ValueError(entry)
             except Exception as ex:  # noqa
